@@ -17,6 +17,9 @@ pub struct Row {
     pub id: Option<String>,
     pub parent: Option<String>,
     pub name: String,
+    /// level and error presence (not compared by C03/C04/C18: C05's business; shown in reports)
+    pub lvl: Option<String>,
+    pub err: bool,
 }
 
 #[derive(Clone, Default)]
@@ -32,6 +35,8 @@ impl Emitter for RecEmitter {
             id: p.pull::<emit::SpanId, _>("span_id").map(|s| format!("s:{s}")),
             parent: p.pull::<emit::SpanId, _>("span_parent").map(|s| format!("s:{s}")),
             name: evt.msg().to_string(),
+            lvl: p.get("lvl").map(|v| v.to_string()),
+            err: p.get("err").is_some(),
         };
         self.0.lock().unwrap().push(row);
     }
@@ -66,7 +71,7 @@ impl Clock for CounterClock {
 }
 
 /// Bijection between the specification's id names and the ids observed in the real run.
-#[derive(Default)]
+#[derive(Default, Clone)]
 pub struct Bij {
     m2c: HashMap<u64, String>,
     c2m: HashMap<String, u64>,
